@@ -47,6 +47,33 @@ pub fn word(kinds: &[TxKind]) -> String {
     kinds.iter().map(|k| k.letter()).collect()
 }
 
+/// Every word of length 1..=depth over `alphabet` (shorter words first, lexicographic by alphabet index).
+pub fn words_over(alphabet: &[TxKind], depth: usize) -> Vec<Vec<TxKind>> {
+    let mut out: Vec<Vec<TxKind>> = Vec::new();
+    let mut level: Vec<Vec<TxKind>> = vec![Vec::new()];
+    for _ in 0..depth {
+        let mut next = Vec::new();
+        for w in &level {
+            for k in alphabet {
+                let mut x = w.clone();
+                x.push(*k);
+                next.push(x);
+            }
+        }
+        out.extend(next.iter().cloned());
+        level = next;
+    }
+    out
+}
+
+/// The quick workload set shared by C10 and C11: every word of ≤2 transactions over the 4 kinds
+/// plus every word of exactly 3 transactions over {Submit, Tick}.
+pub fn words_quick() -> Vec<Vec<TxKind>> {
+    let mut w = words_over(&KINDS, 2);
+    w.extend(words_over(&[TxKind::Submit, TxKind::Tick], 3).into_iter().filter(|x| x.len() == 3));
+    w
+}
+
 /// Chain cursor a writer carries from one transaction to the next.
 #[derive(Clone, Copy, Debug, PartialEq, Eq)]
 pub struct Chain {
